@@ -4,8 +4,9 @@ import BV.Common.Sha256
 import BV.C11.Model
 import BV.C11.Spec
 import BV.C11.Algo
+import BV.C11.MuSig
 namespace BV.C11.Driver
-open BV.Hex BV.Secp256k1 BV.C11
+open BV.Hex BV.Secp256k1 BV.C11 BV.C11.MuSig
 
 def hex32 (v : Nat) : String := listToHex (toBE 32 v)
 
@@ -18,6 +19,109 @@ def b01 (b : Bool) : String := if b then "1" else "0"
 def showPoint : Point → String
   | .inf => "inf"
   | q => listToHex (serializeCompressed q)
+
+def parseKeys? (s : String) : Option (List Point) :=
+  (s.splitOn ",").mapM (fun h => (hexToList? h).bind parsePubKey)
+
+def parseTweak? (s : String) : Option Tweak :=
+  match s.splitOn ":" with
+  | [k, h] => match hexToList? h with
+    | some b => if b.length ≠ 32 then none else
+      if k == "x" then some ⟨b, true⟩ else if k == "p" then some ⟨b, false⟩ else none
+    | none => none
+  | _ => none
+
+/-- "-" no tweak option at all; "b" BIP86; "t:<root32>" taproot; "p:<t>,x:<t>,…" plain / x-only chain -/
+def parseTweakOpt? (s : String) : Option (Option TweakOpt) :=
+  if s == "-" then some none
+  else if s == "b" then some (some .bip86)
+  else if s.startsWith "t:" then
+    match hexToList? (s.drop 2).toString with
+    | some b => if b.length = 32 then some (some (.taproot b)) else none
+    | none => none
+  else ((s.splitOn ",").mapM parseTweak?).map (fun ts => some (.plain ts))
+
+def twOf (t : Option TweakOpt) : TweakOpt := t.getD (.plain [])
+
+def parseSigner? (s : String) : Option (Nat × Bytes) :=
+  match s.splitOn ":" with
+  | [d, r] => match hexToNat? d, hexToList? r with
+    | some d, some r => some (d, r)
+    | _, _ => none
+  | _ => none
+
+def joinC (l : List String) : String := ",".intercalate l
+
+def rotate1 {α} : List α → List α
+  | [] => []
+  | a :: t => t ++ [a]
+
+/-- one full signing session: nonce generation, nonce aggregation, every signer signs, every partial
+    signature is checked (also against a wrong nonce and with s+1), combination, final BIP340 check.
+    `AggregateKeys` is evaluated once and shared (`sign = aggregateKeys >>= signWith` by definition). -/
+def session (sort : Bool) (msg : Bytes) (tw : Option TweakOpt) (signers : List (Nat × Bytes)) : String :=
+  let keys := signers.map (fun (d, _) => mulG d)
+  match aggregateKeys keys sort (twOf tw) with
+  | none => "err:keyagg"
+  | some ak =>
+    let pubs := keys.map serializeCompressed
+    match (signers.zip pubs).mapM (fun ((_, r), pk) => genNonces r pk [] [] none []) with
+    | none => "err:noncegen"
+    | some (nonces : List (Bytes × Bytes)) =>
+      match aggregateNonces (nonces.map (·.2)) with
+      | none => "err:nonceagg"
+      | some aggN =>
+        let sigs := (signers.zip nonces).map (fun ((d, _), (sec, _)) =>
+          if signChecks sec d keys then signWith ak sec d aggN keys msg sort else none)
+        match sigs.mapM id with
+        | none => s!"agg={showPoint ak.final} nonce={listToHex aggN} err:sign"
+        | some (ps : List (Nat × Point)) =>
+          let ss : List Nat := ps.map (fun (s, _) => s)
+          let pubNs := nonces.map (·.2)
+          let pv := (ps.zip (pubs.zip pubNs)).map (fun ((s, _), (pk, pn)) =>
+            b01 (verifyPartialWith ak s pn aggN keys pk msg sort))
+          let xv := (ps.zip (pubs.zip (rotate1 pubNs))).map (fun ((s, _), (pk, pn)) =>
+            b01 (verifyPartialWith ak s pn aggN keys pk msg sort))
+          let yv := (ps.zip (pubs.zip pubNs)).map (fun ((s, _), (pk, pn)) =>
+            b01 (verifyPartialWith ak (sadd s 1) pn aggN keys pk msg sort))
+          let r := match ps with | (_, r) :: _ => r | [] => .inf
+          let (rx, s) : Nat × Nat := match tw with
+            | none => (match r with | .inf => 0 | .aff x _ => x, ss.foldl sadd 0)
+            | some _ => combineWith ak r ss msg
+          s!"agg={showPoint ak.final} nonce={listToHex aggN} s={joinC (ps.map (fun (s, _) => hex32 s))} pv={joinC pv} xv={joinC xv} yv={joinC yv} sig={listToHex (serializeSchnorrSig rx s)} v={b01 (schnorrVerify rx s msg (serializeXOnly ak.final))}"
+
+def handleMusig : List String → String
+  | ["keyagg", sort, keys, tw] => match parseKeys? keys, parseTweakOpt? tw with
+    | some keys, some tw => match aggregateKeys keys (sort == "1") (twOf tw) with
+      | some ak => s!"ok {showPoint ak.final} {showPoint ak.pre} {hex32 ak.gacc} {hex32 ak.tacc}"
+      | none => "err"
+    | _, _ => "bad-op"
+  | ["noncegen", rand, pk, sk, aggpk, msg, aux] =>
+    match hexToList? rand, hexToList? pk, hexToList? sk, hexToList? aggpk, hexToList? aux with
+    | some rand, some pk, some sk, some aggpk, some aux =>
+      let msg? : Option (Option Bytes) := if msg == "none" then some none else (hexToList? msg).map some
+      match msg? with
+      | some m => match genNonces rand pk sk aggpk m aux with
+        | some (sec, pub) => s!"{listToHex sec} {listToHex pub}"
+        | none => "err"
+      | none => "bad-op"
+    | _, _, _, _, _ => "bad-op"
+  | ["nonceagg", ns] => match (ns.splitOn ",").mapM hexToList? with
+    | some ns => if ns.any (fun b => b.length ≠ 66) then "bad-op" else
+      match aggregateNonces ns with
+      | some b => listToHex b
+      | none => "err"
+    | none => "bad-op"
+  | ["musig", sort, msg, tw, signers] =>
+    match hexToList? msg, parseTweakOpt? tw, (signers.splitOn ",").mapM parseSigner? with
+    | some msg, some tw, some signers => session (sort == "1") msg tw signers
+    | _, _, _ => "bad-op"
+  | ["pverify", s, pn, an, keys, pk, msg, sort, tw] =>
+    match hexToNat? s, hexToList? pn, hexToList? an, parseKeys? keys, hexToList? pk, hexToList? msg, parseTweakOpt? tw with
+    | some s, some pn, some an, some keys, some pk, some msg, some tw =>
+      b01 (verifyPartial s pn an keys pk msg (sort == "1") (twOf tw))
+    | _, _, _, _, _, _, _ => "bad-op"
+  | _ => "bad-op"
 
 def handle : List String → String
   | ["der", h] => match hexToList? h with
@@ -95,6 +199,6 @@ def handle : List String → String
   | ["ecdh2", a, b] => match hexToNat? a, hexToNat? b with
     | some a, some b => s!"{listToHex (sharedSecret a (mulG b))} {listToHex (sharedSecret b (mulG a))}"
     | _, _ => "bad-op"
-  | _ => "bad-op"
+  | l => handleMusig l
 
 end BV.C11.Driver
